@@ -141,7 +141,7 @@ def judge(spec, tier="quick"):
 
     m, err = core.call(build)
     if err:
-        if err.etype == "AssertionError" and "settable" in err.msg:
+        if err.etype == "AssertionError" and any(not c10._groups_for(spec, a) for a in spec["assignments"]):
             out.refusals.append("make_trainable: no settable rows")
             return out
         out.violate("raises", f"building the trainable model raised {err.short()}", etype=err.etype, frame=err.frame)
